@@ -252,6 +252,7 @@ func runC20(c *Ctx) {
 		return
 	}
 	edge := false
+	var pending []string
 	for i := 0; i < 60 && !c.Violated(); i++ {
 		touched := ref.Pick(r, c20Keys)
 		switch x := r.Intn(20); {
@@ -326,9 +327,17 @@ func runC20(c *Ctx) {
 		default:
 			// nothing: compare again
 		}
-		if !c20Compare(c, ctx, m, &trail, touched) {
+		// the accessors are not always consulted after every single change: two or three changes in a row (a Delete and a
+		// Set leave the count where it was) and only then a look - a view derived at the previous look must not survive
+		pending = append(pending, touched)
+		if i < 59 && r.Chance(1, 4) {
+			c.Class("changes_without_a_look_in_between")
+			continue
+		}
+		if !c20Compare(c, ctx, m, &trail, pending...) {
 			return
 		}
+		pending = pending[:0]
 	}
 	ctx.Destroy()
 	c.Class("sequence")
